@@ -393,9 +393,28 @@ Proof.
     apply Z.leb_le in H1; apply Z.leb_le in H2; lia.
 Qed.
 
-Lemma scalar_eq_spec k v inlit : lexable v -> scalar_field_value k v inlit = spec_scalar k v inlit.
+Definition plain_ident (v : oval) : Prop := match v with OIdent id => plain_word id = true | _ => True end.
+
+Lemma lexable_b_plain v : lexable_b v = true -> plain_ident v.
+Proof. destruct v; cbn; auto. Qed.
+
+Lemma lower_inf : lower "inf" = "inf"%string. Proof. reflexivity. Qed.
+Lemma lower_nan : lower "nan" = "nan"%string. Proof. reflexivity. Qed.
+
+(* for a plain identifier the case-insensitive reading of the special float words changes nothing *)
+Lemma float_word_plain inlit w : plain_word w = true -> float_word true inlit w = float_word false inlit w.
 Proof.
-  intros Hl. unfold spec_scalar. destruct (int_range k) as [[lo hi]|] eqn:Er.
+  unfold plain_word, float_word. intros Hp. destruct inlit; cbn [andb]; [|reflexivity].
+  destruct (String.eqb_spec w "inf") as [Hi|Hi]; [subst w; reflexivity|].
+  destruct (String.eqb_spec w "nan") as [Hn|Hn]; [subst w; reflexivity|].
+  rewrite !orb_false_r in Hp. apply negb_true_iff in Hp.
+  apply orb_false_iff in Hp. destruct Hp as [Hp H3]. apply orb_false_iff in Hp. destruct Hp as [H1 H2].
+  rewrite H1, H2, H3. reflexivity.
+Qed.
+
+Lemma scalar_eq_spec k v inlit : lexable v -> plain_ident v -> scalar_field_value k v inlit = spec_scalar true k v inlit.
+Proof.
+  intros Hl Hp. unfold spec_scalar. destruct (int_range k) as [[lo hi]|] eqn:Er.
   - destruct (num_value v) as [z|] eqn:Ev.
     + eapply scalar_coercion_ranges_lemma; eassumption.
     + eapply noninteger_rejected_lemma; eassumption.
@@ -404,8 +423,12 @@ Proof.
       destruct v; try reflexivity. destruct inlit; cbn [scalar_field_value true_words false_words str_in existsb].
       * reflexivity.
       * rewrite !orb_false_r. reflexivity.
-    + (* float *) destruct v as [| |d| | | |]; try reflexivity. destruct d; reflexivity.
-    + (* double *) destruct v as [| |d| | | |]; try reflexivity. destruct d; reflexivity.
+    + (* float *) destruct v as [| |d|id| | |]; try reflexivity; [destruct d; reflexivity|].
+      cbn [scalar_field_value spec_float]. cbn in Hp. rewrite (float_word_plain inlit id Hp). unfold float_word. cbn [andb].
+      destruct (String.eqb id "inf"); [reflexivity|]. destruct (String.eqb id "nan"); reflexivity.
+    + (* double *) destruct v as [| |d|id| | |]; try reflexivity; [destruct d; reflexivity|].
+      cbn [scalar_field_value spec_float]. cbn in Hp. rewrite (float_word_plain inlit id Hp). unfold float_word. cbn [andb].
+      destruct (String.eqb id "inf"); [reflexivity|]. destruct (String.eqb id "nan"); reflexivity.
 Qed.
 
 Lemma enum_by_name_find vs n :
@@ -652,11 +675,11 @@ Proof.
 Qed.
 
 Definition value_agree (v : oval) : Prop :=
-  lexable_b v = true -> forall fld inlit, vres_agree (field_value sch tt fld v inlit) (spec_value sch tt fld v inlit).
+  lexable_b v = true -> forall fld inlit, vres_agree (field_value sch tt fld v inlit) (spec_value sch tt true fld v inlit).
 
 Lemma value_agree_arg v : value_agree v -> match v with OList sl => Forall value_agree sl | _ => True end ->
   lexable_b v = true -> forall inlit f,
-  arg_agree (fun g x => field_value sch tt g x inlit) (fun g x => spec_value sch tt g x inlit) f v.
+  arg_agree (fun g x => field_value sch tt g x inlit) (fun g x => spec_value sch tt true g x inlit) f v.
 Proof.
   intros Hv Hl Hlex inlit f. destruct v; cbn [arg_agree]; try (apply Hv; exact Hlex).
   cbn [lexable_b] in Hlex. rewrite forallb_forall in Hlex. rewrite Forall_forall in Hl |- *.
@@ -668,40 +691,40 @@ Proof.
   apply oval_ind2.
   1-5: (intros a; split; [|exact I]; intros Hlex fld inlit; unfold vres_agree).
   - (* OInt *) cbn [field_value spec_value]. destruct (fkind fld) eqn:Ek;
-      try (rewrite (scalar_eq_spec _ (OInt a) inlit (lexable_b_lexable _ Hlex));
-           destruct (spec_scalar _ (OInt a) inlit); cbn; eauto).
+      try (rewrite (scalar_eq_spec _ (OInt a) inlit (lexable_b_lexable _ Hlex) I);
+           destruct (spec_scalar true _ (OInt a) inlit); cbn; eauto).
     + destruct (nth_error (senums sch) e); [|cbn; eauto].
       rewrite (enum_eq_spec _ (OInt a) inlit (lexable_b_lexable _ Hlex)). destruct (spec_enum _ _ _); cbn; eauto.
     + cbn. eauto.
   - (* OUint *) cbn [field_value spec_value]. destruct (fkind fld) eqn:Ek;
-      try (rewrite (scalar_eq_spec _ (OUint a) inlit (lexable_b_lexable _ Hlex));
-           destruct (spec_scalar _ (OUint a) inlit); cbn; eauto).
+      try (rewrite (scalar_eq_spec _ (OUint a) inlit (lexable_b_lexable _ Hlex) I);
+           destruct (spec_scalar true _ (OUint a) inlit); cbn; eauto).
     + destruct (nth_error (senums sch) e); [|cbn; eauto].
       rewrite (enum_eq_spec _ (OUint a) inlit (lexable_b_lexable _ Hlex)). destruct (spec_enum _ _ _); cbn; eauto.
     + cbn. eauto.
   - (* OFloat *) cbn [field_value spec_value]. destruct (fkind fld) eqn:Ek;
-      try (rewrite (scalar_eq_spec _ (OFloat a) inlit I); destruct (spec_scalar _ (OFloat a) inlit); cbn; eauto).
+      try (rewrite (scalar_eq_spec _ (OFloat a) inlit I I); destruct (spec_scalar true _ (OFloat a) inlit); cbn; eauto).
     + destruct (nth_error (senums sch) e); [|cbn; eauto].
       rewrite (enum_eq_spec _ (OFloat a) inlit I). destruct (spec_enum _ _ _); cbn; eauto.
     + cbn. eauto.
   - (* OIdent *) cbn [field_value spec_value]. destruct (fkind fld) eqn:Ek;
-      try (rewrite (scalar_eq_spec _ (OIdent a) inlit I); destruct (spec_scalar _ (OIdent a) inlit); cbn; eauto).
+      try (rewrite (scalar_eq_spec _ (OIdent a) inlit I (lexable_b_plain _ Hlex)); destruct (spec_scalar true _ (OIdent a) inlit); cbn; eauto).
     + destruct (nth_error (senums sch) e); [|cbn; eauto].
       rewrite (enum_eq_spec _ (OIdent a) inlit I). destruct (spec_enum _ _ _); cbn; eauto.
     + cbn. eauto.
   - (* OStr *) cbn [field_value spec_value]. destruct (fkind fld) eqn:Ek;
-      try (rewrite (scalar_eq_spec _ (OStr a) inlit I); destruct (spec_scalar _ (OStr a) inlit); cbn; eauto).
+      try (rewrite (scalar_eq_spec _ (OStr a) inlit I I); destruct (spec_scalar true _ (OStr a) inlit); cbn; eauto).
     + destruct (nth_error (senums sch) e); [|cbn; eauto].
       rewrite (enum_eq_spec _ (OStr a) inlit I). destruct (spec_enum _ _ _); cbn; eauto.
     + cbn. eauto.
   - (* OMsg *) intros fs IHfs. split; [|exact I]. intros Hlex fld inlit. unfold vres_agree.
     cbn [field_value spec_value]. destruct (fkind fld) eqn:Ek;
-      try (rewrite (scalar_eq_spec _ (OMsg fs) inlit I); destruct (spec_scalar _ (OMsg fs) inlit); cbn; eauto).
+      try (rewrite (scalar_eq_spec _ (OMsg fs) inlit I I); destruct (spec_scalar true _ (OMsg fs) inlit); cbn; eauto).
     + destruct (nth_error (senums sch) e); [|cbn; eauto].
       rewrite (enum_eq_spec _ (OMsg fs) inlit I). destruct (spec_enum _ _ _); cbn; eauto.
     + destruct (lit_loop sch tt (fun f x => field_value sch tt f x true) m fs [] false []) as [ov es] eqn:El.
       assert (Hall : Forall (fun p => forall f, arg_agree (fun g x => field_value sch tt g x true)
-                                                       (fun g x => spec_value sch tt g x true) f (snd p)) fs).
+                                                       (fun g x => spec_value sch tt true g x true) f (snd p)) fs).
       { cbn [lexable_b] in Hlex. rewrite forallb_forall in Hlex. rewrite Forall_forall in IHfs |- *.
         intros p Hp f. destruct (IHfs p Hp) as [Hv Hl]. apply value_agree_arg; auto. }
       pose proof (lit_loop_agree _ _ _ _ _ _ _ _ _ Hall El (fun H => match Bool.diff_false_true H with end)) as Hr.
@@ -710,7 +733,7 @@ Proof.
       * destruct Hr as [Hbad|He]; [exfalso; apply Hbad; reflexivity|exact He].
   - (* OList *) intros es IHes. split.
     + intros Hlex fld inlit. unfold vres_agree. cbn [field_value spec_value]. destruct (fkind fld) eqn:Ek;
-        try (rewrite (scalar_eq_spec _ (OList es) inlit I); destruct (spec_scalar _ (OList es) inlit); cbn; eauto).
+        try (rewrite (scalar_eq_spec _ (OList es) inlit I I); destruct (spec_scalar true _ (OList es) inlit); cbn; eauto).
       * destruct (nth_error (senums sch) e); [|cbn; eauto].
         rewrite (enum_eq_spec _ (OList es) inlit I). destruct (spec_enum _ _ _); cbn; eauto.
       * cbn. eauto.
@@ -718,7 +741,7 @@ Proof.
 Qed.
 
 Lemma stmt_value_agree v inlit f : lexable_b v = true ->
-  arg_agree (fun g x => field_value sch tt g x inlit) (fun g x => spec_value sch tt g x inlit) f v.
+  arg_agree (fun g x => field_value sch tt g x inlit) (fun g x => spec_value sch tt true g x inlit) f v.
 Proof. intros H. destruct (value_agree_all v) as [Hv Hl]. apply value_agree_arg; assumption. Qed.
 End Literals.
 
@@ -738,14 +761,14 @@ Definition spec_from (md : nat) (m : mval) (name : list npart) (v : oval) : res 
       match path_conflict sch inter lmd leaf m with
       | Some x => Err x
       | None =>
-        match spec_values_with (fun g x => spec_value sch tt g x false) leaf v with
+        match spec_values_with (fun g x => spec_value sch tt true g x false) leaf v with
         | Err x => Err x
         | Ok vs => Ok (merge_along inter leaf vs m)
         end
       end
   end.
 
-Lemma spec_stmt_from T m st : spec_stmt sch tt T m st = spec_from T m (sname st) (svalue st).
+Lemma spec_stmt_from T m st : spec_stmt sch tt true T m st = spec_from T m (sname st) (svalue st).
 Proof. reflexivity. Qed.
 
 Lemma explicit_has f m : fimplicit f = false -> has f m = present (fnum f) m.
@@ -921,8 +944,8 @@ Definition this_phase (c : bool) (st : stmt) : bool := Bool.eqb (is_custom st) c
 Lemma pass_strict_spec c T : forall uo m,
   stmts_lexable uo = true ->
   match pass_strict sch tt c T m uo with
-  | Ok (m', _) => spec_fold sch tt T m (filter (this_phase c) uo) = Ok m'
-  | Err _ => exists e, spec_fold sch tt T m (filter (this_phase c) uo) = Err e
+  | Ok (m', _) => spec_fold sch tt true T m (filter (this_phase c) uo) = Ok m'
+  | Err _ => exists e, spec_fold sch tt true T m (filter (this_phase c) uo) = Err e
   end.
 Proof.
   induction uo as [|st r IH]; intros m Hl; cbn [pass_strict filter].
@@ -938,11 +961,11 @@ Proof.
 Qed.
 
 Lemma spec_fold_app T : forall a b m,
-  spec_fold sch tt T m (a ++ b) =
-  match spec_fold sch tt T m a with Ok m1 => spec_fold sch tt T m1 b | Err x => Err x end.
+  spec_fold sch tt true T m (a ++ b) =
+  match spec_fold sch tt true T m a with Ok m1 => spec_fold sch tt true T m1 b | Err x => Err x end.
 Proof.
   induction a as [|st r IH]; intros b m; cbn [app spec_fold]; [reflexivity|].
-  destruct (spec_stmt sch tt T m st); [apply IH|reflexivity].
+  destruct (spec_stmt sch tt true T m st); [apply IH|reflexivity].
 Qed.
 
 Lemma filter_filter_same {A} (f : A -> bool) l : filter f (filter f l) = filter f l.
@@ -959,7 +982,7 @@ Qed.
 (* C20: the strict run and protoc's interpretation end in the same options message, or both reject *)
 Lemma interpret_eq_protoc_partial_lemma T m0 stmts :
   stmts_lexable stmts = true ->
-  same_outcome (interpret_strict sch tt T m0 stmts) (protoc_interpret sch tt T m0 stmts).
+  same_outcome (interpret_strict sch tt T m0 stmts) (protoc_interpret sch tt true T m0 stmts).
 Proof.
   intros Hl. unfold interpret_strict, protoc_interpret. rewrite spec_fold_app.
   pose proof (pass_strict_spec false T stmts m0 Hl) as H1.
@@ -994,7 +1017,7 @@ Definition ip_stmts : list stmt :=
 Lemma interpret_eq_protoc_refuted_lemma :
   exists sch tt T stmts,
     schema_wf sch = true /\ stmts_lexable stmts = true /\
-    ~ same_outcome (interpret_strict sch tt T [] stmts) (protoc_interpret sch tt T [] stmts).
+    ~ same_outcome (interpret_strict sch tt T [] stmts) (protoc_interpret sch tt true T [] stmts).
 Proof.
   exists ip_schema, 3%N, 0%nat, ip_stmts. split; [reflexivity|]. split; [reflexivity|].
   vm_compute. exact (fun H => H).
@@ -1350,3 +1373,19 @@ Proof.
   destruct (pass_strict_lenient_fx _ _ _ _ _ _ H) as [d2 Hd2]. rewrite Hd2. eauto.
 Qed.
 End Repaired.
+
+(* The code as it is, inside a message literal: a float field does not take the word Infinity (nor INF, infinity,
+   NaN, ...), which protoc's text format reads in any letter case; the schema has presence everywhere. *)
+Definition fw_schema : schema :=
+  mkSchema [mkMsg []; mkMsg [mkField "f" 1%N KFloat false None false []]] []
+           [mkExt "foo" 0%nat (mkField "foo" 50001%N (KMsg 1) false None false [])].
+Definition fw_stmts : list stmt := [mkStmt [PExt "foo"] (OMsg [(LField "f", OIdent "Infinity")])].
+
+Lemma interpret_eq_protoc_refuted_words_lemma :
+  exists sch tt T stmts,
+    schema_wf sch = true /\ schema_explicit sch = true /\
+    ~ same_outcome (interpret_strict sch tt T [] stmts) (protoc_interpret sch tt true T [] stmts).
+Proof.
+  exists fw_schema, 3%N, 0%nat, fw_stmts. split; [reflexivity|]. split; [reflexivity|].
+  vm_compute. exact (fun H => H).
+Qed.
